@@ -266,6 +266,27 @@ pub fn generate(tier: Tier, rng: &mut Rng) -> Vec<Case> {
             push(&mut out, &spec, format!("b{d}{s}{d}", d = style.delim()), Some(want_bytes(s.as_bytes())), vec![tag, "bytes-utf8"]);
         }
     }
+    // pairs of \\u escapes: surrogates never combine (UTF-16 pairs are not a CEL notion)
+    for hi in ["d800", "d83d", "dbff", "0041"] {
+        for lo in ["dc00", "de00", "dfff", "0042", "d800"] {
+            for d in ["'", "\"", "'''", "\"\"\""] {
+                let valid = |h: &str| u32::from_str_radix(h, 16).ok().and_then(char::from_u32);
+                let want = match (valid(hi), valid(lo)) {
+                    (Some(a), Some(b2)) => want_str(&format!("{a}{b2}")),
+                    _ => REJECT.to_string(),
+                };
+                push(&mut out, &spec, format!("{d}\\u{hi}\\u{lo}{d}"), Some(want.clone()), vec!["escape", "u-pair"]);
+                push(&mut out, &spec, format!("{d}\\U0000{hi}\\U0000{lo}{d}"), Some(want), vec!["escape", "u-pair"]);
+            }
+        }
+    }
+    // verbatim CR LF, LF CR, lone CR inside triple-quoted literals stay what they are
+    for d in ["'''", "\"\"\""] {
+        for body in ["a\r\nb", "a\n\rb", "a\rb", "\r\n", "a\r\n\r\nb"] {
+            push(&mut out, &spec, format!("{d}{body}{d}"), Some(want_str(body)), vec!["verbatim-line-breaks"]);
+            push(&mut out, &spec, format!("r{d}{body}{d}"), Some(want_str(body)), vec!["verbatim-line-breaks", "raw"]);
+        }
+    }
     // 3. malformed spellings must be compile errors
     for src in ["'\\q'", "'\\x4'", "'\\xg0'", "'\\u123'", "'\\U0000123'", "'\\8'", "'\\400'", "'\\ '", "'abc", "\"abc", "'''abc''", "'a\nb'", "\"a\rb\"", "b'\\u0041'", "b'\\q'", "'\\", "r'a", "'a'b'"] {
         push(&mut out, &spec, src.to_string(), Some(REJECT.to_string()), vec!["malformed"]);
